@@ -17,6 +17,7 @@ func NewWithClientOptions(ctx iface.OrdaContext, option *options.ClientOptions, 
 		return nil, errors.ServerDBQuery.New(ctx.L(), err.Error())
 	}
 	if err = client.Ping(ctx, nil); err != nil {
+		_ = client.Disconnect(ctx) // a server that cannot start exits: nothing of it stays behind
 		return nil, errors.ServerDBQuery.New(ctx.L(), err.Error())
 	}
 	db := client.Database(dbName)
@@ -28,6 +29,7 @@ func NewWithClientOptions(ctx iface.OrdaContext, option *options.ClientOptions, 
 		},
 	}
 	if err := repo.InitializeCollections(ctx); err != nil {
+		_ = client.Disconnect(ctx)
 		return nil, err
 	}
 	return repo, nil
